@@ -352,6 +352,14 @@ class ThreadPoolServer(Server):
         '''closes a ThreadPoolServer. In particular, joins the thread pool.'''
         # close parent server
         Server.close(self)
+        # the parent only knows the sockets in self.clients, which _accept_method empties: shut down the
+        # sockets of the connections still being served, so that their peers see end-of-stream at once
+        # and a worker blocked reading from one of them wakes up
+        for conn in list(self.fd_to_conn.values()):
+            try:
+                conn._channel.stream.sock.shutdown(socket.SHUT_RDWR)
+            except Exception:
+                pass
         # stop producer thread
         self.polling_thread.join()
         # cleanup thread pool : first fill the pool with None fds so that all threads exit
@@ -360,6 +368,10 @@ class ThreadPoolServer(Server):
             self._active_connection_queue.put(None)
         for w in self.workers:
             w.join()
+        # nobody else touches the remaining connections any more: close them (this runs on_disconnect)
+        for fd in list(self.fd_to_conn.keys()):
+            self._remove_from_inactive_connection(fd)
+            self._drop_connection(fd)
 
     def _remove_from_inactive_connection(self, fd):
         '''removes a connection from the set of inactive ones'''
